@@ -26,7 +26,10 @@ from typing import Any, Callable, Optional
 
 VERIF = os.path.dirname(os.path.dirname(os.path.abspath(__file__)))
 COQ = os.path.join(VERIF, "coq")
-GEN = os.path.join(COQ, "generated")
+# generated case/table files of one run live in their own directory, so that concurrent runs (two properties, or the
+# same property against a scratch tree) never overwrite each other's files
+GEN = os.path.join(COQ, "generated", os.environ.get("VERIF_GEN_SUBDIR", "main"))
+EVIDENCE_DIR = os.environ.get("VERIF_EVIDENCE_DIR", os.path.join(VERIF, "evidence"))
 COQC = ["coqc", "-q", "-Q", os.path.join(COQ, "theories"), "Viv", "-Q", os.path.join(COQ, "props"), "VivProps",
         "-Q", GEN, "VivGen"]
 BATCH = 300  # cases per generated file
@@ -66,6 +69,54 @@ def copt(x, f=lambda s: s) -> str:
 
 def cpair(*xs) -> str:
     return "(" + ", ".join(xs) + ")"
+
+
+# --------------------------------------------------------------------------------------------------------------
+# Source fingerprints: the anchored files of each property (properties.jsonl) are hashed (AST, docstrings dropped) and
+# compared with harness/fingerprints.json, recorded when the models were last reviewed against the code.  A difference
+# is NOT a violation (a harmless rewrite changes it too); it only tells the run that the hand-written model may no
+# longer describe the code, so the sampled part of the tie is deepened (more generated cases) before a verdict.
+# --------------------------------------------------------------------------------------------------------------
+def _repo_src():
+    return os.environ.get("VERIF_REPO_SRC", "/repo/src")
+
+
+def _ast_hash(path):
+    import ast
+    try:
+        tree = ast.parse(open(path).read())
+    except Exception as e:
+        return f"unparsable:{type(e).__name__}"
+    for node in ast.walk(tree):
+        if isinstance(node, (ast.FunctionDef, ast.AsyncFunctionDef, ast.ClassDef, ast.Module)):
+            b = node.body
+            if b and isinstance(b[0], ast.Expr) and isinstance(getattr(b[0], "value", None), ast.Constant) \
+                    and isinstance(b[0].value.value, str):
+                node.body = b[1:] or [ast.Pass()]
+    return hashlib.sha1(ast.dump(tree).encode()).hexdigest()[:16]
+
+
+def anchored_files(prop):
+    for l in open(os.path.join(VERIF, "properties.jsonl")):
+        d = json.loads(l)
+        if d["id"] == prop:
+            return [f for f in d.get("anchors", {}).get("files", []) if f.endswith(".py")]
+    return []
+
+
+def source_fingerprint(prop):
+    root = os.path.dirname(_repo_src())          # anchors are relative to the repository root ("src/vivarium/...")
+    return {f: _ast_hash(os.path.join(root, f)) for f in anchored_files(prop)}
+
+
+def recorded_fingerprint(prop):
+    p = os.path.join(VERIF, "harness", "fingerprints.json")
+    if not os.path.exists(p):
+        return None
+    return json.load(open(p)).get(prop)
+
+
+ESCALATE = 6   # factor on the quick tier's generated cases when the anchored source differs from the reviewed one
 
 
 # --------------------------------------------------------------------------------------------------------------
@@ -123,6 +174,12 @@ class CheckRun:
         self.notes = []
         self.exhaustive = None
         os.makedirs(GEN, exist_ok=True)
+        fp, rec = source_fingerprint(prop), recorded_fingerprint(prop)
+        self.changed_files = sorted(f for f in fp if rec is None or rec.get(f) != fp[f])
+        self.escalate = bool(self.changed_files) and rec is not None
+        if self.escalate:
+            self.notes.append("anchored source differs from the fingerprint recorded when the model was reviewed "
+                              f"({', '.join(self.changed_files)}): generated cases x{ESCALATE} (capped at the thorough count)")
 
     # ---- Coq -------------------------------------------------------------------------------------------
     def coqc(self, path: str, timeout=600):
@@ -194,6 +251,8 @@ class CheckRun:
         else:
             self.exhaustive = False
             n = s.n_quick if self.tier == "quick" else s.n_thorough
+            if self.tier == "quick" and self.escalate:
+                n = max(n, min(s.n_quick * ESCALATE, s.n_thorough))
             rng = random.Random(self.rng.getrandbits(64))
             for _ in range(n):
                 cases.append(("gen", s.gen(rng)))
@@ -307,6 +366,7 @@ class CheckRun:
                 "print_assumptions": self.assumptions_out,
                 "obligation_log": [{"name": n, "ok": ok, **({"detail": d[-600:]} if d else {})} for n, ok, d in self.obligation_log],
                 "known_findings_reproduced": sorted(seen_known),
+                "anchored_source_changed_since_review": self.changed_files,
                 "notes": self.notes,
             },
             "assumptions": list(getattr(module, "ASSUMPTIONS", [])),
@@ -314,8 +374,8 @@ class CheckRun:
         }
         if level_note:
             ev["coverage"]["level_note"] = level_note
-        os.makedirs(os.path.join(VERIF, "evidence"), exist_ok=True)
-        with open(os.path.join(VERIF, "evidence", f"{self.prop}.json"), "w") as f:
+        os.makedirs(EVIDENCE_DIR, exist_ok=True)
+        with open(os.path.join(EVIDENCE_DIR, f"{self.prop}.json"), "w") as f:
             json.dump(ev, f, indent=1, default=str)
         for l in lines:
             print(l)
